@@ -103,6 +103,12 @@ func genInput(rng *rand.Rand, idx int, nRoots int) Input {
 	// inputs come in batches of 4 with one height (the fork flags are process-global) so that a
 	// batch can also be executed concurrently
 	in := Input{Idx: idx, Parent: rng.Intn(nRoots), Height: uint64(1 + (idx/4)%5), Group: rng.Intn(3), Castor: rng.Intn(7) - 1}
+	if (idx/4)%2 == 1 {
+		// every second batch runs more than HeightAfterStake (300) blocks above the first ones: miners
+		// applied in the committed parent states are then active, so the election / reward tables of
+		// the parent states differ
+		in.Height += 400
+	}
 	ntx := 1 + rng.Intn(8)
 	rich := env.RichAccounts
 	nonce := map[string]uint64{}
@@ -150,7 +156,11 @@ func genInput(rng *rand.Rand, idx int, nRoots int) Input {
 				s.Targets[a] = amounts[rng.Intn(len(amounts))]
 			}
 			if rng.Intn(3) == 0 { // amounts summing to just above / below the balance (10^9), the source among them
-				s.Targets = map[string]string{src: "800000000", addr(1): "500000000"}
+				self := src
+				if rng.Intn(2) == 0 { // the source spelled differently from tx.Source
+					self = "0x" + strings.ToUpper(src[2:])
+				}
+				s.Targets = map[string]string{self: "800000000", addr(1): "500000000"}
 				if rng.Intn(2) == 0 {
 					s.Targets[addr(2)] = "400000000"
 				}
@@ -160,6 +170,9 @@ func genInput(rng *rand.Rand, idx int, nRoots int) Input {
 			id := sha256.Sum256([]byte(fmt.Sprintf("miner-%d", rng.Intn(6))))
 			typ := byte(rng.Intn(3) / 2) // two thirds validators (they earn the per-block validator reward)
 			stake := []uint64{100, 400, 450, 800, 2000, 2500}[rng.Intn(6)]
+			if typ == common.MinerTypeProposer && rng.Intn(3) > 0 {
+				stake = []uint64{2000, 2500, 3000, 7000}[rng.Intn(4)] // at or above the proposer minimum: the election table changes
+			}
 			m := types.Miner{Id: id[:], PublicKey: id[:], VrfPublicKey: id[:], Type: typ, Stake: stake}
 			if rng.Intn(2) == 0 {
 				m.Account = common.FromHex(addr(rng.Intn(4)))
@@ -169,7 +182,11 @@ func genInput(rng *rand.Rand, idx int, nRoots int) Input {
 		case c < 72:
 			s.Kind = "miner-add"
 			id := sha256.Sum256([]byte(fmt.Sprintf("miner-%d", rng.Intn(6))))
-			b, _ := json.Marshal(types.Miner{Id: id[:], Stake: uint64(1 + rng.Intn(500))})
+			mid := id[:]
+			if rng.Intn(4) == 0 {
+				mid = common.FromHex(env.DevProposerID) // the genesis proposer: active at every height
+			}
+			b, _ := json.Marshal(types.Miner{Id: mid, Stake: uint64(1 + rng.Intn(500))})
 			s.Data = string(b)
 		case c < 80:
 			s.Kind = "miner-refund"
@@ -471,7 +488,20 @@ func childExec(r *mon.Run, args []string) {
 	// late re-execution: every input once more, after the process has executed everything else
 	// (other parent states, other miners and accounts, contract code): the outcome may not depend on
 	// what this process happened to execute in between (process-local caches, memoised lookups)
-	for _, d := range history {
+	// order: reversed, then shuffled, so that every input follows other predecessors than in the first pass
+	late := make([]done, 0, 2*len(history))
+	for i := len(history) - 1; i >= 0; i-- {
+		late = append(late, history[i])
+	}
+	lrng := r.Rand("c01-late", from)
+	for _, i := range lrng.Perm(len(history)) {
+		late = append(late, history[i])
+	}
+	flagged := map[int]bool{}
+	for _, d := range late {
+		if flagged[d.in.Idx] {
+			continue
+		}
 		common.SetBlockHeight(d.in.Height)
 		var o outcome
 		var err error
@@ -481,6 +511,7 @@ func childExec(r *mon.Run, args []string) {
 		r.Count("late_reexecutions", 1)
 		if o.key() != d.first.key() {
 			_, what := classify(d.in, d.first, o)
+			flagged[d.in.Idx] = true
 			r.Violation("C01:executor:outcome-depends-on-process-history", fmt.Sprintf("input %d re-executed on the same parent state after the process had executed %d other inputs: %s", d.in.Idx, len(history)-1, what),
 				map[string]interface{}{"layer": "executor-late", "input": d.in, "from": from, "to": to})
 		}
